@@ -381,3 +381,47 @@ package main
 //@   loop 1: invariant forall k int :: 0 <= k && k < len(vm.writables) ==> allocated(vm.writables[k])
 //@   loop 1: invariant forall k int :: 0 <= k && k < len(vm.writables) ==> !vm.writables[k].KeepMount.ReadOnly
 //@   loop 1: invariant forall u string :: has(vm.mountMap, u) ==> vm.mountMap[u].KeepMount.ReadOnly == roCfg(cluster, myURL, u) && allocated(vm.mountMap[u])
+
+// ---------------------------------------------- thin wrappers of the read/write path
+// Get / Put hand this volume, the caller's locator and the caller's buffer to
+// the pipe adapters; ReadBlock reads the block's own path and turns a read
+// that delivered fewer (or more) bytes than the size reported by stat into an
+// error; Mtime reports the modification time of the block's own file.
+//@ iface FileInfo.Size pure
+//@   modifies nothing
+//@ func UnixVolume.blockPath trusted pure
+//@   modifies nothing
+//@ func UnixVolume.Get property C01,C02
+//@   calls getWithPipe#1: requires $1 == loc && $2 == buf && $3 == iface(v)
+//@ func UnixVolume.Put property C02
+//@   calls putWithPipe#1: requires $1 == loc && $2 == block && $3 == iface(v)
+//@ func UnixVolume.stat property C01,C02
+//@   calls osWithStats.Stat#1: requires $0 == path
+//@   ensures result1 == nil ==> 0 <= FileInfo.Size(result0) && FileInfo.Size(result0) <= BlockSize
+//@ func UnixVolume.ReadBlock property C01,C02
+//@   ghost serr error = nil
+//@   calls UnixVolume.stat#1: requires $0 == UnixVolume.blockPath(v, loc)
+//@   calls UnixVolume.stat#1: set serr = $r1
+//@   calls UnixVolume.getFunc#1: requires serr == nil && $1 == UnixVolume.blockPath(v, loc)
+//@ func UnixVolume.ReadBlock$1 property C01,C02
+//@   ghost cn int64 = 0
+//@   ghost cerr error = nil
+//@   calls io.Copy#1: requires $0 == w && $1 == rdr
+//@   calls io.Copy#1: set cn = $r0
+//@   calls io.Copy#1: set cerr = $r1
+//@   ensures result == nil ==> cerr == nil && cn == FileInfo.Size(stat)
+//@ func UnixVolume.getFunc property C01,C02
+//@   ghost ferr error = nil
+//@   ghost locked bool = false
+//@   calls UnixVolume.lock#1: set locked = ($r == nil)
+//@   calls osWithStats.Open#1: requires locked && $0 == path
+//@   calls fn#1: set ferr = $r
+//@   ensures result == nil ==> ferr == nil && locked
+//@ func UnixVolume.Mtime property C04
+//@   calls osWithStats.Stat#1: requires $0 == UnixVolume.blockPath(v, loc)
+//@   ensures result1 == nil ==> result0 == FileInfo.ModTime(fi)
+
+// RunTrashWorker hands every queued request, unchanged, to TrashItem with the
+// worker's volume manager and cluster configuration.
+//@ func RunTrashWorker property C04
+//@   calls TrashItem#1: requires $0 == volmgr && $2 == cluster && $3 == unbox(item, TrashRequest)
